@@ -103,6 +103,54 @@ class Effects:
             if d:
                 self.direct[q] = d
 
+        self._callable_params()
+
+    def _callable_params(self) -> None:
+        """`compute_fn()` where `compute_fn` is a parameter: the call runs a user function when some call site of the enclosing
+        function passes a nested function / lambda that (transitively) does."""
+        from .flow import bind_args
+
+        todo: list[tuple[FuncInfo, str, ast.Call]] = []
+        for fn in self.prog.functions.values():
+            params = set(fn.param_names()) - {"self", "cls"}
+            for n in walk_no_nested(fn.node):
+                if isinstance(n, ast.Call) and isinstance(n.func, ast.Name) and n.func.id in params:
+                    todo.append((fn, n.func.id, n))
+        if not todo:
+            return
+        callers: dict[str, list[tuple[FuncInfo, ast.Call]]] = {}
+        for q, sites in self.cg.sites.items():
+            for s_ in sites:
+                if s_.kind != "call" or not isinstance(s_.node, ast.Call):
+                    continue
+                for c in s_.callees:
+                    callers.setdefault(c.qualname, []).append((self.prog.functions[q], s_.node))
+        for fn, prm, call in todo:
+            hit = False
+            for caller, site in callers.get(fn.qualname, []):
+                a = bind_args(site, fn).get(prm)
+                if a is None:
+                    continue
+                cands: list[FuncInfo] = []
+                if isinstance(a, ast.Name):
+                    scope = caller
+                    while scope is not None:
+                        if a.id in scope.nested:
+                            cands.append(scope.nested[a.id])
+                            break
+                        scope = scope.parent
+                for g in cands:
+                    if self.has(g.qualname, USER_CALL):
+                        hit = True
+                if isinstance(a, ast.Lambda) or (isinstance(a, ast.Call) and dotted(a.func).rsplit(".", 1)[-1] == "partial"):
+                    for x in ast.walk(a):
+                        if isinstance(x, ast.Call) or (isinstance(x, (ast.Name, ast.Attribute)) and isinstance(a, ast.Call)):
+                            for callee in self.cg.resolve_callable(caller, x.func if isinstance(x, ast.Call) else x):
+                                if self.has(callee.qualname, USER_CALL):
+                                    hit = True
+            if hit:
+                self.direct.setdefault(fn.qualname, []).append((USER_CALL, call))
+
     def direct_of(self, q: str, effect: str) -> list[ast.AST]:
         return [n for e, n in self.direct.get(q, []) if e == effect]
 
